@@ -65,7 +65,7 @@ TEXT = {
         engine="choice (E1)",
         design_ref="DESIGN.md §3 C15",
         technique="bounded-exhaustive enumeration of format token sequences x argument lists against a reference formatter through a non-storing comparing sink; allocation counter over a pre-built batch",
-        text="Formats of 1-2 tokens (full product) and 3 tokens (third free) over 38 tokens (literals, %%, %d/%x/%o/%s with widths {absent,0,1,5,31,32,33,1000}, %t, a 10^6-wide %s) x 47 argument values (every built-in integer type at 0, +-1, min, max; strings / byte slices of length 0..40; bools; float, nil, struct, uint as wrong types), with too-short and too-long argument lists, are compared byte-exactly with a strconv-based reference written from the statement. Every format string of length <=4 (5) over 9 bytes never panics. runtime.MemStats.Mallocs does not move across a pre-built batch of 5k calls (bisected to a case if it does).",
+        text="Formats of 1-2 tokens (full product) and 3 tokens (third free) over 38 tokens (literals, %%, %d/%x/%o/%s with widths {absent,0,1,5,31,32,33,1000}, %t, a 10^6-wide %s) x 47 argument values (every built-in integer type at 0, +-1, min, max; strings / byte slices of length 0..40; bools; float, nil, struct, uint as wrong types), with too-short and too-long argument lists, are compared byte-exactly with a strconv-based reference written from the statement; the 1-token x argument and 2-token x first-argument products run again with no sink set (Printf and Fprintf(nil) into the early ring buffer, handed over to the first sink and compared). Every format string of length <=4 (5) over 9 bytes never panics. runtime.MemStats.Mallocs does not move across a pre-built batch of 5k calls (bisected to a case if it does).",
         note="Allocation freedom is as compiled by the pinned host toolchain.",
     ),
     "C08": dict(
@@ -93,7 +93,7 @@ TEXT = {
         engine="choice (E1) + software MMU",
         design_ref="DESIGN.md §3 C05",
         technique="bounded-exhaustive enumeration of ELF section sets, reservations and allocation-failure points through the real setupPDTForKernel; exhaustive scan of the new root",
-        text="Every single section over the shape set (start offsets {0,1,0x10,0x800,0xff0,0xfff} x sizes ending one byte before / at / one / two bytes after a page boundary over 1-3 pages x W/A/X flag sets) x 5 bases x {0,1,3} reservations, section pairs (full product in thorough), adjacent-page and three-section sets, many-page sections, three kernel offsets and allocation failure at each of the first 14 allocations run through the real setupPDTForKernel on the software MMU. The new root is scanned exhaustively: every page of every in-range section maps to (addr-offset)>>12+i with P, RW iff writable, NX iff not executable, never user; early reservations keep their translation; nothing else is mapped; CR3 is the new root on success and unchanged on failure.",
+        text="Every single section over the shape set (start offsets {0,1,0x10,0x800,0xff0,0xfff} x sizes ending one byte before / at / one / two bytes after a page boundary over 1-3 pages x W/A/X flag sets) x 5 bases x {0,1,3} reservations, every assignment of 5 frames (two runs and a foreign frame) to 1-4 reserved pages, section pairs (full product in thorough), adjacent-page and three-section sets, many-page sections, three kernel offsets and allocation failure at each of the first 14 allocations run through the real setupPDTForKernel on the software MMU. The new root is scanned exhaustively: every page of every in-range section maps to (addr-offset)>>12+i with P, RW iff writable, NX iff not executable, never user; early reservations keep their translation; nothing else is mapped; CR3 is the new root on success and unchanged on failure.",
         note="Sections are delivered through the visitElfSectionsFn seam (decoding is C10) and never share a page (the property's precondition).",
     ),
     "C06": dict(
@@ -115,7 +115,7 @@ TEXT = {
         design_ref="DESIGN.md §3 C16",
         technique="explicit-state search of the real ring buffer / sink hand-over at scaled sizes (fixed point) and shipped size (bounded depth); bounded-exhaustive enumeration of driver sets through the real hal.DetectHardware",
         text="Part 1: the real kfmt ring buffer, Printf and SetOutputSink are searched to a fixed point of (rIndex,wIndex,sink) with the ring size constant scaled to 8 and 4, and to depth 4 (5) at the shipped size, against a drop-oldest FIFO reference with labelled bytes (loss, duplication, reordering visible). Part 2: every ordered tuple of <=3 drivers (4 in thorough, reduced alphabet) over kind x outcome x detection order x early-log size is booted through the real DetectHardware; probe order, active set, first-console/first-terminal rule, attachment, state, sink and the exactly-once in-order delivery of the early log ahead of later output are checked; with the real tty.VT the console content is compared differentially with a terminal fed the recorder's stream.",
-        note="Drivers are mocks (plus the real tty.VT); bring-up log lines are matched by tokens, not exact wording; ring sizes 8/4 come from an overlay copy of ringbuf.go with only the constant changed.",
+        note="Drivers are mocks (plus the real tty.VT; mock terminals refuse output while unattached, as tty.VT does); bring-up log lines are matched by tokens, not exact wording; ring sizes 8/4 come from an overlay copy of ringbuf.go with only the constant changed.",
     ),
     "C17": dict(
         engine="graph (E2)",
@@ -128,7 +128,7 @@ TEXT = {
         engine="graph (E2)",
         design_ref="DESIGN.md §3 C01",
         technique="explicit-state search of the real allocator (held-set graph to a fixed point) under bounded-exhaustive enumeration of boot configurations",
-        text="For every memory map built from the shape alphabet (<=2 regions quick, 3 in thorough; unaligned, sub-page, reserved and unknown types), every kernel placement and every early-allocation pattern, the real pmm.Init is run on a real multiboot block and then every reachable ownership state of the bitmap allocator is visited by BFS (snapshot/restore of the complete allocator state); in every state each frame returned by AllocFrame must be in the reference usable set and not held. Word-boundary pools (1,63,64,65,128,129 frames) are drained and probed with single and pairwise frees.",
+        text="For every memory map built from the shape alphabet (<=2 regions plus 3 regions over reduced shapes - frames {1,2} quick, {0,1,2} thorough; unaligned, sub-page, reserved and unknown types), every kernel placement and every early-allocation pattern, the real pmm.Init is run on a real multiboot block and then every reachable ownership state of the bitmap allocator is visited by BFS (snapshot/restore of the complete allocator state); in every state each frame returned by AllocFrame must be in the reference usable set and not held. Word-boundary pools (1,63,64,65,128,129 frames) are drained and probed with single and pairwise frees.",
         note="Frame numbers are only bookkeeping (never dereferenced); region sizes beyond the alphabet and maps with more than 3 regions are not explored; concurrency is C09.",
     ),
     "C02": dict(
